@@ -1,0 +1,88 @@
+//go:build verif
+
+// Contracts for package phttp (HTTP guns), checked by /verif/govc. Comment-only: no code.
+package phttp
+
+// An ammo gives its request and the sample to fill; a valid ammo has a request with a URL.
+//@ iface Ammo.IsInvalid
+//@ pure
+//@ iface Ammo.ID
+//@ pure
+//@ iface Ammo.Request
+//@ ensures result1 != nil && imp(!self.IsInvalid(), result0 != nil && result0.URL != nil)
+//@ modifies nothing
+
+//@ iface Client.Do
+//@ ensures [response-or-error] imp(result1 == nil, result0 != nil && result0.Body != nil)
+
+// The optional Connect hook reports its own failure as a sample (see base_test.go: "Connect should report fail in sample itself").
+//@ fieldfunc BaseGun.Connect
+//@ ensures ev(report) == old(ev(report)) + ite(result != nil, 1, 0)
+//@ modifies ev(report)
+
+// One shot: the request goes to the configured target with the scheme chosen by the ssl option, keeps the ammo's Host if it has one,
+// and exactly one sample is reported whatever happens; the sample's code is the status received.
+//@ func (b *BaseGun) Shoot
+//@ props C09 C10 C19
+//@ nilsafe
+//@ requires b.Client != nil && ammo != nil
+//@ may_panic b.Aggregator == nil
+//@ ensures [exactly-one-sample-per-shot] ev(report) == old(ev(report)) + 1
+//@ let req = result_of(ammo.Request, 0)
+//@ let sample = result_of(ammo.Request, 1)
+//@ ensures [scheme-follows-the-ssl-option] imp(calls(b.Client.Do) == 1, req.URL.Scheme == ite(b.Config.SSL, "https", "http"))
+//@ ensures [connection-goes-to-the-gun-target] imp(calls(b.Client.Do) == 1, req.URL.Host == b.Config.TargetResolved)
+//@ ensures [host-of-the-ammo-wins] imp(calls(b.Client.Do) == 1 && old(req.Host) != "", req.Host == old(req.Host))
+//@ ensures [host-defaults-to-the-target-host] imp(calls(b.Client.Do) == 1 && old(req.Host) == "", req.Host == result_of(getHostWithoutPort, 0))
+//@ ensures [method-path-headers-body-untouched] req.Method == old(req.Method) && req.URL.Path == old(req.URL.Path) && req.URL.RawQuery == old(req.URL.RawQuery) && req.Header == old(req.Header) && imp(!b.Config.AnswLog.Enabled && !b.Config.HTTPTrace.DumpEnabled, req.Body == old(req.Body))
+//@ ensures [code-is-the-status-received] imp(calls(b.Client.Do) == 1 && result_of(b.Client.Do, 1) == nil, sample.fields[9] == result_of(b.Client.Do, 0).StatusCode)
+//@ ensures [failed-exchange-carries-its-error] imp(calls(b.Client.Do) == 1 && result_of(b.Client.Do, 1) != nil, sample.err == result_of(b.Client.Do, 1))
+//@ ensures [invalid-ammo-is-reported-not-sent] imp(ammo.IsInvalid() && (b.Connect == nil || result_of(b.Connect, 0) == nil), calls(b.Client.Do) == 0 && sample.fields[9] == 0)
+//@ ensures [tag-is-never-empty] imp(b.Connect == nil || result_of(b.Connect, 0) == nil, sample.tags != "")
+//@ at call b.Client.Do assert [the-ammo-request-is-sent] arg(req) == result_of(ammo.Request, 0) || b.Config.HTTPTrace.TraceEnabled
+//@ at call b.Aggregator.Report assert [the-ammo-sample-is-reported] arg(a0) == result_of(ammo.Request, 1)
+//@ at call getHostWithoutPort assert [host-of-the-configured-target] arg(target) == b.Config.Target
+
+// Answer logging reads the body and puts back an equal copy; nothing else of the request is touched.
+//@ func GetBody
+//@ props C09
+//@ nilsafe
+//@ requires req != nil
+//@ modifies req.Body
+
+// Debug/answer logging helpers: not verified, assumed to leave the gun and the request alone (answLogging re-attaches the body copy).
+//@ func (b *BaseGun) verboseLogging
+//@ trusted
+//@ modifies nothing
+//@ func (b *BaseGun) answLogging
+//@ trusted
+//@ modifies req.Body
+
+// First `depth` path elements of the URL (the whole path if it has fewer). No fault for any path.
+//@ func autotag
+//@ props C10 C19
+//@ nilsafe
+//@ requires URL != nil
+//@ modifies nothing
+//@ loop 0 invariant 0 <= ind && ind <= len(path) && path == URL.Path
+//@ ensures [prefix-of-the-path] len(result) <= len(URL.Path)
+
+//@ func getHostWithoutPort
+//@ props C09
+//@ modifies nothing
+//@ ensures [host-part-or-the-whole-target] imp(result_of(net.SplitHostPort, 2) == nil, result == result_of(net.SplitHostPort, 0)) && imp(result_of(net.SplitHostPort, 2) != nil, result == target)
+//@ at call net.SplitHostPort assert arg(a0) == target0
+
+// The transport is configured exactly as the options say (keep-alives in particular).
+//@ func NewTransport
+//@ props C09
+//@ may_panic true
+//@ ensures [options-are-applied-as-given] result.DisableKeepAlives == conf.DisableKeepAlives && result.DisableCompression == conf.DisableCompression && result.MaxIdleConns == conf.MaxIdleConns && result.MaxIdleConnsPerHost == conf.MaxIdleConnsPerHost
+//@ ensures [timeouts-are-applied-as-given] result.IdleConnTimeout == conf.IdleConnTimeout && result.TLSHandshakeTimeout == conf.TLSHandshakeTimeout && result.ResponseHeaderTimeout == conf.ResponseHeaderTimeout && result.ExpectContinueTimeout == conf.ExpectContinueTimeout
+//@ ensures fresh(result)
+
+// A gun owns one client, built once from its own configuration.
+//@ func NewBaseGun
+//@ props C09 C11
+//@ ensures [one-client-per-gun] fresh(result) && calls(clientConstructor) == 1 && result.Client == result_of(clientConstructor, 0)
+//@ at call clientConstructor assert [built-from-the-gun-configuration] arg(a0) == cfg.Client && arg(a1) == cfg.Target
